@@ -13,6 +13,8 @@ Not decided: that an intercept-only tau = 0.5 quantile regression is the weighte
 """
 from __future__ import annotations
 
+import ast
+
 from .. import ir, symexpr, util
 from ..constfold import Folder
 from ..frames import Frames
@@ -35,6 +37,25 @@ def check(ctx):
     )
     ctx.assumptions += ["an intercept-only quantile regression at tau = 0.5 with weights w returns the w-weighted median (elexsolver)",
                         "DataFrame column arithmetic is element-wise"]
+    # ---- R0: no closure over the estimand loop variable outlives its iteration in the functions this property reads -------
+    # (one positive example on every run: a dict comprehension of lambdas reading its variable)
+    probe = ast.parse("def f(df, es):\n    return df.assign(**{f'r_{e}': lambda x: x[e] for e in es})\n")
+    for pn in ast.walk(probe):
+        for c_ in ast.iter_child_nodes(pn):
+            c_._parent = pn
+    ctx.selftest("C05.R0.late-binding", bool(util.late_binding_closures(probe.body[0])), "lambda stored in a dict comprehension reading its variable")
+    hazards = []
+    for modn, qn in (("elexmodel.handlers.data.CombinedData", "CombinedDataHandler.get_units"), (CM, "ConformalElectionModel.get_unit_predictions")):
+        fn_ = ctx.fn(modn, qn)
+        hazards += [(fn_, h) for h in util.late_binding_closures(fn_.node)]
+    for fn_, (clo, var, loop) in hazards:
+        ctx.ob("C05.R0.late-binding", util.key(fn_, clo), False, fn_.where(clo),
+               f"a lambda stored inside the iteration over '{var}' reads '{var}' when it is called, i.e. after the iteration: every stored "
+               f"lambda then sees the LAST value (all residual / prediction columns are computed for the last estimand)")
+    if hazards:
+        return
+    ctx.ob("C05.R0.late-binding", "get_units, get_unit_predictions|no closure outlives its loop variable", True, "src/elexmodel",
+           "no lambda / local function that reads a loop variable is stored beyond its iteration")
     # ---- R1 ---------------------------------------------------------------------------------------
     us = UnitSplit(ctx)
     F = Frames(us.b)
